@@ -105,21 +105,14 @@ def run(cmd, cwd=None, env=None, timeout=None, stdin=None):
 def build_driver(ctx, race=False):
     """Builds the Go driver against /repo's current working tree with the hook tag on."""
     hdir = os.path.join(VERIF, "harness")
-    modfile = None
-    if REPO != "/repo":
-        # scratch copy of the repository: alternate go.mod (+ .sum) with the replace directive pointing at it
-        modfile = os.path.join(ctx.work, "alt.mod")
-        with open(os.path.join(hdir, "go.mod")) as f:
-            gm = f.read()
-        with open(modfile, "w") as f:
-            f.write(gm.replace("=> /repo", "=> " + REPO))
-        shutil.copyfile(os.path.join(REPO, "go.sum"), os.path.join(ctx.work, "alt.sum"))
-    else:
-        # go.sum must cover the repo's deps; refresh it from the tree under test
-        try:
-            shutil.copyfile(os.path.join(REPO, "go.sum"), os.path.join(hdir, "go.sum"))
-        except OSError:
-            pass
+    # an alternate go.mod (+ .sum) in the check's own work directory: the replace directive points at the tree under test and
+    # go.sum is that tree's (it must cover the repo's deps). Nothing shared is written, so checks can run side by side.
+    modfile = os.path.join(ctx.work, "alt.mod")
+    with open(os.path.join(hdir, "go.mod")) as f:
+        gm = f.read()
+    with open(modfile, "w") as f:
+        f.write(gm.replace("=> /repo", "=> " + REPO))
+    shutil.copyfile(os.path.join(REPO, "go.sum"), os.path.join(ctx.work, "alt.sum"))
     bindir = os.path.join(WORK, "bin")
     os.makedirs(bindir, exist_ok=True)
     out = os.path.join(bindir, "drv-%s-%d%s" % (ctx.id, os.getpid(), "-race" if race else ""))
